@@ -279,6 +279,7 @@ func init() {
 		e.RDecs(false)
 		e.RClone()
 		e.RClauseSym()
+		e.RHangGuard()
 		e.RFragOrder()
 	})
 	register("C15", Meta{
